@@ -34,6 +34,17 @@ func c03ViaProxy(r *Run) {
 	if !r.Want("viaproxy") {
 		return
 	}
+	c03ViaProxyOver(r, "pipe")
+	c03ViaProxyOver(r, "goat.NewGoatOverChannel")
+}
+
+// chanLink is one hop made of the library's channel transport: two ends over a pair of queues.
+func chanLink() (goat.RpcReadWriter, goat.RpcReadWriter) {
+	ab, ba := make(chan *Rpc, 256), make(chan *Rpc, 256)
+	return goat.NewGoatOverChannel(ba, ab), goat.NewGoatOverChannel(ab, ba)
+}
+
+func c03ViaProxyOver(r *Run, hop string) {
 	ctx, cancel := context.WithCancel(context.Background())
 	proxy := goat.NewProxy(ctx, "proxy", func(id string) (goat.RpcReadWriter, error) { return nil, fmt.Errorf("no such peer %q", id) }, nil, nil)
 	served := make(chan struct{})
@@ -61,18 +72,27 @@ func c03ViaProxy(r *Run) {
 	})
 	srv := goat.NewServer("srv")
 	srv.RegisterService(&echoDesc, impl)
-	ss, ps := NewPipe(256, true, nil)
+	var ss, ps, ce, pe goat.RpcReadWriter
+	var ends []*End
+	if hop == "pipe" {
+		a, b := NewPipe(256, true, nil)
+		c, d := NewPipe(256, true, nil)
+		ss, ps, ce, pe = a, b, c, d
+		ends = []*End{a, b, c, d}
+	} else {
+		ss, ps = chanLink()
+		ce, pe = chanLink()
+	}
 	link := &dropOpenRW{RpcReadWriter: ps}
 	proxy.AddClient("srv", link)
 	srvDone := make(chan struct{})
 	go func() { defer close(srvDone); srv.Serve(ctx, ss) }()
-	ce, pe := NewPipe(256, true, nil)
 	proxy.AddClient("c0", pe)
 	cc := goat.NewClientConn(ce, "c0", "srv")
 	defer func() {
 		cancel()
 		srv.Stop()
-		for _, e := range []*End{ss, ps, ce, pe} {
+		for _, e := range ends {
 			e.FailRead(io.ErrClosedPipe)
 			e.FailWrite(io.ErrClosedPipe)
 		}
@@ -92,7 +112,7 @@ func c03ViaProxy(r *Run) {
 	}
 	for k := codes.OK; k <= codes.Unauthenticated && r.NumViolations() <= 4; k++ {
 		want.Store(int32(k))
-		in := map[string]any{"topology": "client-proxy-server", "handler_status": k.String()}
+		in := map[string]any{"topology": "client-proxy-server", "hops": hop, "handler_status": k.String()}
 		r.Progress("viaproxy", in)
 		ok := within(hangTimeout, func() {
 			_, err := callUnary(context.Background(), cc, []byte("x"))
@@ -114,13 +134,13 @@ func c03ViaProxy(r *Run) {
 			r.Violate("viaproxy.hang", "ops", "a call through the proxy did not finish", in, goroutineDump(), nil)
 			return
 		}
-		r.Eval(fmt.Sprintf("viaproxy/%d", k), true)
+		r.Eval(fmt.Sprintf("viaproxy/%s/%d", hop, k), true)
 		r.Count("c03.viaproxy")
 	}
 	// the server resets a stream whose open was lost
 	want.Store(0)
 	for i := 0; i < r.Scale(3, 30) && r.NumViolations() <= 4; i++ {
-		in := map[string]any{"topology": "client-proxy-server", "lost": "the stream-open envelope, between proxy and server", "round": i}
+		in := map[string]any{"topology": "client-proxy-server", "hops": hop, "lost": "the stream-open envelope, between proxy and server", "round": i}
 		r.Progress("viaproxy", in)
 		link.drop.Store(true)
 		var term error
@@ -146,7 +166,7 @@ func c03ViaProxy(r *Run) {
 		if term == nil || term == io.EOF {
 			r.Violate("viaproxy.reset", "ops", "a stream the server reset was reported to the caller, behind a proxy, as completed", in, fmt.Sprint(term), "an error")
 		}
-		r.Eval(fmt.Sprintf("viaproxy/reset/%d", i), true)
+		r.Eval(fmt.Sprintf("viaproxy/%s/reset/%d", hop, i), true)
 		r.Count("c03.viaproxy.reset")
 	}
 }
